@@ -101,7 +101,12 @@ fn compile_native_asset_for_output(
     let policy = coercion::bytes_into_hash(policy.as_slice())?;
     let asset_name = coercion::expr_into_bytes(&ir.asset_name)?;
     let amount = coercion::expr_into_number(&ir.amount)?;
-    let amount = primitives::PositiveCoin::try_from(amount as u64).unwrap();
+    let amount = u64::try_from(amount)
+        .ok()
+        .and_then(|x| primitives::PositiveCoin::try_from(x).ok())
+        .ok_or_else(|| {
+            Error::CoerceError(format!("{amount}"), "positive 64-bit asset amount".to_string())
+        })?;
 
     let asset = asset!(policy, asset_name.clone(), amount);
 
@@ -134,6 +139,14 @@ fn compile_native_asset_for_mint(
 fn compile_ada_value(ir: &tir::AssetExpr) -> Result<primitives::Value, Error> {
     let amount = coercion::expr_into_number(&ir.amount)?;
 
+    if amount > u64::MAX as i128 {
+        return Err(Error::CoerceError(
+            format!("{amount}"),
+            "lovelace amount".to_string(),
+        ));
+    }
+
+    // TODO: a negative amount should be an error too, existing templates rely on the wrap
     Ok(value!(amount as u64))
 }
 
@@ -141,7 +154,7 @@ fn compile_value(ir: &tir::AssetExpr) -> Result<primitives::Value, Error> {
     let amount = coercion::expr_into_number(&ir.amount)?;
     if ir.policy.is_none() {
         compile_ada_value(ir)
-    } else if amount as i64 > 0 {
+    } else if amount > 0 {
         let asset = compile_native_asset_for_output(ir)?;
         Ok(value!(0, asset))
     } else {
@@ -386,7 +399,8 @@ pub fn compile_withdrawal_directive(
         .get("amount")
         .ok_or(Error::MissingExpression("withdrawal amount".to_string()))?;
     let amount = coercion::expr_into_number(amount)?;
-    let amount = primitives::Coin::try_from(amount as u64).unwrap();
+    let amount = u64::try_from(amount)
+        .map_err(|_| Error::CoerceError(format!("{amount}"), "withdrawal amount".to_string()))?;
 
     Ok((credential, amount))
 }
@@ -472,17 +486,23 @@ fn compile_required_signers(tx: &tir::Tx) -> Result<Option<primitives::RequiredS
 }
 
 fn compile_validity(validity: Option<&tir::Validity>) -> Result<(Option<u64>, Option<u64>), Error> {
+    let into_slot = |n: i128| {
+        u64::try_from(n).map_err(|_| Error::CoerceError(format!("{n}"), "slot number".to_string()))
+    };
+
     let since = validity
         .and_then(|v| v.since.as_option())
         .map(coercion::expr_into_number)
         .transpose()?
-        .map(|n| n as u64);
+        .map(into_slot)
+        .transpose()?;
 
     let until = validity
         .and_then(|v| v.until.as_option())
         .map(coercion::expr_into_number)
         .transpose()?
-        .map(|n| n as u64);
+        .map(into_slot)
+        .transpose()?;
 
     Ok((since, until))
 }
@@ -495,7 +515,9 @@ fn compile_donation(tx: &tir::Tx) -> Result<Option<pallas::codec::utils::Positiv
         .map(coercion::expr_into_number)
         .transpose()?
         .map(|amount| {
-            pallas::codec::utils::PositiveCoin::try_from(amount as u64).map_err(|_| {
+            let in_range = u64::try_from(amount).unwrap_or(0);
+
+            pallas::codec::utils::PositiveCoin::try_from(in_range).map_err(|_| {
                 Error::CoerceError(
                     format!("Invalid donation amount: {}", amount),
                     "PositiveCoin".to_string(),
@@ -514,7 +536,11 @@ fn compile_tx_body(
     let out = primitives::TransactionBody {
         inputs: compile_inputs(tx)?.into(),
         outputs: compile_outputs(tx, network)?,
-        fee: coercion::expr_into_number(&tx.fees)? as u64,
+        fee: {
+            let fee = coercion::expr_into_number(&tx.fees)?;
+            u64::try_from(fee)
+                .map_err(|_| Error::CoerceError(format!("{fee}"), "fee amount".to_string()))?
+        },
         certificates: primitives::NonEmptySet::from_vec(compile_certs(tx, network)?),
         mint: compile_mint_block(tx)?,
         reference_inputs: primitives::NonEmptySet::from_vec(compile_reference_inputs(tx)?),
@@ -543,7 +569,9 @@ fn compile_auxiliary_data(tx: &tir::Tx) -> Result<Option<primitives::AuxiliaryDa
         .metadata
         .into_iter()
         .map(|x| {
-            let key = expr_into_number(&x.key)? as u64;
+            let key = expr_into_number(&x.key)?;
+            let key = u64::try_from(key)
+                .map_err(|_| Error::CoerceError(format!("{key}"), "metadata label".to_string()))?;
             let value = expr_into_metadatum(&x.value)?;
             Ok((key, value))
         })
